@@ -247,6 +247,29 @@ theorem dial_url_paths (path : Path) (r : Except Err Nat) :
   · intro st e hr hne; subst hr; simp [dialUrlResult, hne]
   · intro st i hr h1 h2; subst hr; simp [dialUrlResult, h1, h2]
 
+/-- The hop that `dial_url` dials — the relay itself or, with a proxy configured, the proxy —
+is dialed with the builder's family preference: for any schedule of that hop's dial, its
+first attempt is taken from everything resolved so far and is of the builder's preferred
+family whenever such an address is there, and until then only the resolution delay is waited
+on.  (In particular a configured proxy does not lose the IPv6 preference.) -/
+theorem proxy_hop_uses_builder_preference (path : Path) (p : Bool) {evs : List (Nat × Choice)}
+    {s : DState} (h : run (dialUrlStart path p) evs = some s) :
+    s.prefer6 = p ∧
+    (∀ a0, s.attempts[0]? = some a0 →
+      a0.queueAtStart <+: s.resolved ∧ a0.addr ∈ a0.queueAtStart ∧
+      ((∃ b, b ∈ a0.queueAtStart ∧ isV6 b = p) → isV6 a0.addr = p)) ∧
+    (s.result = none → s.started = false → s.queue ≠ [] →
+      ∃ t, s.timer = some t ∧ t.kind = .resolution) := by
+  have h' : run (start p) evs = some s := h
+  refine ⟨?_, fun a0 h0 => preferred_first h' a0 h0, fun hr hs hq => waits_resolution_delay h' hr hs hq⟩
+  rw [prefer6_const h']
+  simp [start, top, init0, popFamily, position?]
+
+/-- Source shape: at both call sites in the connection builder the preference argument of
+`dial_happy_eyeballs` is literally `self.prefer_ipv6` (extraction fails on anything else). -/
+theorem hop_preference_source_shape :
+    Generated.C15.proxyHopPreferArg = 1 ∧ Generated.C15.directHopPreferArg = 1 := ⟨rfl, rfl⟩
+
 /-! ### the timed environment of the driver only ever takes steps of the transition system -/
 
 /-- `d` is the result of some schedule. -/
